@@ -17,7 +17,7 @@ ENV = dict(os.environ, GOFLAGS="-mod=mod", GOPROXY="off", GOSUMDB="off", GOTOOLC
 
 
 def sh(cmd, cwd=None, timeout=3000):
-    p = subprocess.run(cmd, shell=True, cwd=cwd, env=ENV, stdout=subprocess.PIPE, stderr=subprocess.STDOUT, text=True, timeout=timeout)
+    p = subprocess.run(cmd, shell=True, cwd=cwd, env=ENV, stdout=subprocess.PIPE, stderr=subprocess.STDOUT, text=True, errors="replace", timeout=timeout)
     return p.returncode, p.stdout
 
 
@@ -36,7 +36,7 @@ def confirm(sd):
     res = {}
     diff = os.path.join(sd, "patch.diff")
     demo = os.path.join(sd, "demo_test.go")
-    dirs = pkg_dirs(open(diff).read())
+    dirs = pkg_dirs(open(diff, errors="replace").read())
     try:
         rc, out = sh("git -C /repo worktree add --detach %s HEAD" % wt)
         assert rc == 0, out
@@ -126,7 +126,7 @@ def one(prop, n, src=None, extra=()):
     meta_path = os.path.join(sd, "meta.json")
     meta = json.load(open(meta_path)) if os.path.exists(meta_path) else {}
     meta.update({"property": prop, "seed": "%s_%s" % (prop, n),
-                 "description": open(os.path.join(sd, "description.txt")).read().strip().splitlines()[0],
+                 "description": open(os.path.join(sd, "description.txt"), errors="replace").read().strip().splitlines()[0],
                  "origin": ("revert of a fix commit made during this work (regression seed)" if not os.path.exists(os.path.join(sd, "demo_test.go"))
                             else "fresh sub-agent given only the property text and a scratch worktree")})
     meta["confirmation"] = confirm(sd)
